@@ -219,7 +219,12 @@ func H_C10_pano(v *V) {
 	wantF := false
 	for i := 0; i < n; i++ {
 		var tok string
-		switch v.Choice(4) {
+		switch v.Choice(5) {
+		case 4:
+			// three dashes and more are not an option prefix: a plain word
+			w := v.String(1)
+			v.Assume(w != "-")
+			tok = "---" + w
 		case 0:
 			tok = "-f"
 		case 1:
